@@ -88,6 +88,35 @@ def lean_sources(prop_modules=None):
     return sorted(res)
 
 
+def import_closure(module):
+    """modules of this project (BespokeVerif.*) transitively imported by `module`, itself included"""
+    import re
+    seen, todo = [], [module]
+    while todo:
+        m = todo.pop()
+        if m in seen or not m.startswith('BespokeVerif'):
+            continue
+        fp = os.path.join(LEAN_DIR, *m.split('.')) + '.lean'
+        if not os.path.exists(fp):
+            continue
+        seen.append(m)
+        with open(fp) as f:
+            for mm in re.finditer(r'^import\s+(\S+)', strip_comments(f.read()), re.M):
+                todo.append(mm.group(1))
+    return sorted(seen)
+
+
+def leanchecker(modules, timeout=1500):
+    """independent re-check of the compiled .olean files of the given modules (thorough tier)"""
+    with _lock():
+        try:
+            p = subprocess.run(['lake', 'env', 'leanchecker'] + list(modules), cwd=LEAN_DIR, capture_output=True,
+                               text=True, timeout=timeout)
+        except subprocess.TimeoutExpired:
+            return None, 'leanchecker timed out'
+    return p.returncode == 0, (p.stdout + p.stderr)[-2000:]
+
+
 def theorem_names(prop_file):
     """fully qualified names of the theorems declared in a Props file"""
     with open(prop_file) as f:
